@@ -132,8 +132,13 @@ def check_call(out, desc, answer, arecs, grecs, objs, matches, cls, hit=False):
                         'audit-deciders'))
     else:
         want_d = want_d or []
-    if _render(cand) != render_expected(cls, want_c):
-        bad.append(('candidates text %r, documented %r' % (_render(cand), render_expected(cls, want_c)), 'render-cand'))
+    first_c, first_d = _render(cand), _render(dec)
+    if first_c != render_expected(cls, want_c):
+        bad.append(('candidates text %r, documented %r' % (first_c, render_expected(cls, want_c)), 'render-cand'))
+    # a record may be rendered by several handlers: the text must not depend on how often it was rendered
+    if _render(cand) != first_c or _render(dec) != first_d:
+        bad.append(('rendered a second time the record reads candidates %r deciders %r, the first time %r / %r'
+                    % (_render(cand), _render(dec), first_c, first_d), 'render-twice'))
     if cls == 'nop' or want_d is not None:
         if _render(dec) != render_expected(cls, want_d if want_d is not None else []):
             bad.append(('deciders text %r, documented %r' % (_render(dec), render_expected(cls, want_d)), 'render-dec'))
